@@ -897,7 +897,7 @@ def run_e3(ctx):
     import time as _t
     ls.build_squid(ctx)
     # a case costs ~5 ms but an instance start several seconds (more when many start at once): few shards
-    nshards = max(1, min(ctx.ncpu, 6 if ctx.quick else 10))
+    nshards = max(1, min(ctx.ncpu, 8 if ctx.quick else 12))
     cfgs, per, total = plan_shards(ctx, nshards)
     t_end = ctx.t0 + ctx.deadline_s - 15
 
